@@ -11,7 +11,7 @@ CLAIMED = {
     "C10": dict(
         category="model_checking",
         technique="TLA+ spec Batch.tla model-checked by TLC; TLC behaviours replayed through CphotAng.__call__ with a scripted dask scheduler; traces of real dask schedulers validated against the spec (TraceBatch.tla)",
-        text="Batch.tla specifies partitioning, any-order start/finish by W workers, failure and in-order gather; TLC checks OkIsIdentity / NeverSilent / PartitionResults / termination exhaustively for N<=6 and for the code's constants (PSize=100). Every maximal TLC behaviour of the replay instances is stepped through the real batch call, all completion orders x failure positions x partition sizes are run with an order-controlled scheduler, and executions under dask's synchronous/threads/processes schedulers are recorded; every execution is a trace validated by TLC against Batch.tla with result tokens obtained by bitwise comparison with one-at-a-time evaluation on fresh kernel objects.",
+        text="Batch.tla specifies partitioning (any consecutive segmentation; the code's uniform rule as instance), any-order start/finish by W workers, failure and in-order gather; TLC checks OkIsIdentity / NeverSilent / PartitionResults / termination exhaustively for N<=5, all compositions of <=4 events and the code's constants (PSize=100). Every maximal TLC behaviour of the replay instances is stepped through the real batch call, all completion orders x failure positions x partition sizes are run with an order-controlled scheduler, and executions under dask's synchronous/threads/processes schedulers are recorded; every execution is a trace validated by TLC against Batch.tla with result tokens obtained by bitwise comparison with one-at-a-time evaluation (run() on the event's own values) on fresh kernel objects; batches in mixed dtypes, at other detector altitudes, with the configured cloud-model object as callback, single-event and empty batches included.",
         note="Assumes: dask invokes callbacks in the scheduler thread (linearised log); intra-kernel thread interleavings are sampled not enumerated; result identity by bitwise equality with single-event evaluation.",
         design="4/C10"),
     "C17": dict(
@@ -71,7 +71,7 @@ CLAIMED = {
     "C19": dict(
         category="model_checking",
         technique="TLA+ spec StdAtmosphere.tla over the shipped layer table (exported constants, TableSound) model-checked on a 0..120 km lattice + all layer boundaries +- 60 ulps; both shipped copies traced and validated by TraceAtmosphere.tla",
-        text="MCStdAtmosphere walks altitudes 0..120 km in 50 m (quick) / 1 m (thorough) steps and each layer boundary +- 60 ulps: round trips within the property's own tolerances, positivity, near-monotonicity (3e-7), end points 0 <-> inf, continuity of the table. Both copies are called on ascending series, boundary neighbourhoods, pressure grids and tabulated base pressures +- 30 ulps, as arrays, 0-d arrays and scalars; per point TLC compares with the spec (1e-12), the copies bit for bit, the code's own round trips and, statefully along a series, the 3e-7 step bound.",
+        text="MCStdAtmosphere walks altitudes 0..120 km in 50 m (quick) / 1 m (thorough) steps and each layer boundary +- 60 ulps: round trips within the property's own tolerances, positivity, near-monotonicity (3e-7), end points 0 <-> inf, continuity of the table. Both copies are called on ascending series, boundary neighbourhoods, pressure grids and tabulated base pressures +- 30 ulps, as arrays, 0-d arrays, scalars, integers (signed / unsigned), binary32, 2-D and Fortran-ordered arrays and reused argument buffers; per point TLC compares with the spec (1e-12), the copies bit for bit, the code's own round trips and, statefully along a series, the 3e-7 step bound.",
         note="Assumes: the layer table is implementation data (nuspacesim.constants) exported to TLC; its soundness, not its numerical values, is checked.",
         design="4/C19"),
     "C13": dict(
@@ -119,7 +119,7 @@ CLAIMED = {
     "C16": dict(
         category="model_checking",
         technique="TLA+ spec ResultsFile.tla: file as register (GridFile.tla), header-contains-configuration, and the reconstructed-field invariant over the product state of (configuration, reconstruction) pairs, model-checked with a buggy reconstructor that must fail; results files of real runs validated by the stateful TraceResultsFile.tla",
-        text="'A field it reconstructs' is defined without the implementation's mapping table: g is reconstructed iff two files give different Recon(.).g; then Recon(c).g = c.g is required for every run - an invariant over the set of runs that TLC evaluates after the last reconstruction event (MCResultsFile shows it holds for a faithful reconstructor, fails for one that fills a field from the wrong card, and never judges a defaulted field). Final tables of compute() runs over variants in which EVERY configuration field varies, plus synthetic tables (2-D column, Time column, empty table), are written exactly as apps/run.py does and read back: same columns, bit-identical data (digests), every header value (FITS card precision), every representable flattened configuration value present as a HIERARCH Config card, config_from_fits succeeds for every variant.",
+        text="'A field it reconstructs' is defined without the implementation's mapping table: g is reconstructed iff two files give different Recon(.).g; then Recon(c).g = c.g is required for every run - an invariant over the set of runs that TLC evaluates after the last reconstruction event (MCResultsFile shows it holds for a faithful reconstructor, fails for one that fills a field from the wrong card, and never judges a defaulted field). Final tables of compute() runs over variants in which EVERY configuration field varies, plus synthetic tables (2-D column, Time column, empty table), are written exactly as apps/run.py does and read back: same columns, bit-identical data (digests), every header value (FITS card precision), every representable flattened configuration value present as a HIERARCH Config card, config_from_fits succeeds for every variant, one configuration object is edited in place between tables, and the show-plot application reloads every file (all channel combinations; plot functions replaced by recorders).",
         note="Assumes: values FITS cannot represent (non-finite numbers, non-ASCII or long strings) are outside the quantifier; header floats at FITS card precision (astropy truncates str(value) to 20 characters).",
         design="4/C16"),
     "C06": dict(
@@ -158,7 +158,7 @@ def main():
         "setup_cmd": "sh /verif/setup.sh",
         "hooks": {
             "guard": "NUSPACESIM_VERIF_DTYPE",
-            "enable": "checks import nuspacesim from $VERIF_REPO/src (default /repo/src), i.e. the current working tree; the only hook (add-only, commit 04b3d69) is NUSPACESIM_VERIF_DTYPE=float64 in CphotAng.__init__, set by the C06 / C09 drivers around the construction of the double-precision kernel object",
+            "enable": "checks import nuspacesim from $VERIF_REPO/src (default /repo/src), i.e. the current working tree; the only hook (add-only, commit 04b3d69) is NUSPACESIM_VERIF_DTYPE=float64 in CphotAng.__init__, set by the C06 / C09 drivers around the construction of the double-precision kernel object. The C++ stepping kernel (zsteps.cpp) is rebuilt from the working tree by every check (stand-in pybind11 headers under /verif/zshim, g++, ctypes, import hook; compared bit for bit with the prebuilt extension when the source is the pinned one)",
             "baseline_off_cmd": "cd /repo && env -u NUSPACESIM_VERIF_DTYPE /venv/bin/python -m pytest -ra -q -p no:cacheprovider --timeout=900 --continue-on-collection-errors",
             "source_commits": ["04b3d69"],
             "add_only": True,
